@@ -82,4 +82,8 @@ CLAIMED["C09"] = {"text": "Marshal/Unmarshal are specified as a field-descriptor
                   "design_ref": "3/C09", "note": _TB,
                   "technique": "TLA+ descriptor algebra; TLC-enumerated struct values replayed through Marshal/Unmarshal and validated by TLC"}
 
+CLAIMED["C10"] = {"text": "Field tables for six document kinds (Debian field name, key of the typed view, value kind) are part of the TLA+ specification; RenderDoc writes a document model in the real Debian layout (folded and single-line lists, multi-line checksum/file lists) and Expected gives the typed view. TLC enumerates models one factor at a time (each field absent, list lengths 1-3, folded or not) for every kind; the real ParseDsc / ParseChanges / ParseControl / ParseBinaryIndex / ParseSourceIndex results are flattened by explicit accessor code whose key set TLC checks against the table, and every field plus the derived accessors (Maintainers, HasArchAll, AbsFiles, DebianSource, SourcePackage, on-demand dependency fields) is judged.",
+                  "design_ref": "3/C10", "note": _TB + " The mapping from Go struct field to flat key is harness knowledge (checked for key-set agreement with the table).",
+                  "technique": "TLA+ field tables and document renderer; TLC-enumerated document models parsed by the real typed parsers and validated by TLC"}
+
 NOT_APPLICABLE = {}
